@@ -14,8 +14,8 @@ PROPS = {
         level_text="Proved in Lean for every frame list, byte stream, request size and buffer state: header/frame round trip (server frames carry tag and payload unchanged), the client's ReadFull returns exactly the next bytes of the concatenated data payloads whatever the frame boundaries and wherever info frames sit, and the reader's panic is unreachable because the regenerated constants satisfy clientBufSize >= maxMessageSize. Model tied to the code by regenerated constants and by the mux correspondence suite on the real bufio/MultiplexReader stack.",
         level_note="Trusted: Lean kernel; extractor (constants); bufio.Reader.Read contract (validated by the suite incl. buffer sizes where the panic is reachable); correspondence is differential testing. Error-frame surfacing and session-level re-framing are covered by the suite/oracle, not yet by a theorem.",
         gen=['Consts'],
-        suites=['mux'],
-        rule="mux suite: random frame lists (data/info/error/unknown tags; payload sizes on and around 0, the bufio size and the 256 KiB limit), truncations, oversized headers and noise, read through the real io.ReadFull/bufio.Reader/MultiplexReader stack with request sizes below, at and above the buffer size; a case is non-trivial when at least one read succeeds; distinct = distinct op line",
+        suites=['mux', 'muxsession'],
+        rule="mux suite: random frame lists (data/info/error/unknown tags; payload sizes on and around 0, the bufio size and the 256 KiB limit), truncations, oversized headers and noise, read through the real io.ReadFull/bufio.Reader/MultiplexReader stack with request sizes below, at and above the buffer size; a case is non-trivial when at least one read succeeds; distinct = distinct op line. muxsession suite: the real maincmd.ClientRun (list-only) against a scripted valid server stream (reference-encoded file lists up to > 256 KiB) re-framed as 1-byte, 1-7-byte, maximum, maximum-1, empty+small, mid-integer frames and with info frames at every boundary and in runs; error frame at a random stage",
         assumptions=["bufio.Reader.Read calls the underlying Read once, with the caller's slice when it is at least the buffer size and with its internal buffer otherwise (validated by the mux suite, including buffer sizes where the panic is reachable)",
                      "'legal frame size' is the implementation's declared limit maxMessageSize (256 KiB); larger declared lengths are answered with an error, which the model states"],
     ),
